@@ -28,22 +28,33 @@ static bool produce(ByteString& out)
 }
 static ByteString vp_pending;   // data given to signUpdate / verifyUpdate, reported with the matching Final
 bool MacAlgorithm::signUpdate(const ByteString& d) { rec(d, -1, 0); return IN(prim_ok) != 0; }
-bool MacAlgorithm::signFinal(ByteString& signature) { return produce(signature); }
+bool MacAlgorithm::signFinal(ByteString& signature) { OUT(fin_n)++; return produce(signature); }
 bool MacAlgorithm::verifyUpdate(const ByteString& d) { rec(d, -1, 0); return IN(prim_ok) != 0; }
 bool MacAlgorithm::verifyFinal(ByteString& signature) { OUT(prim_siglen) = signature.size(); return IN(prim_ok) != 0; }
 bool AsymmetricAlgorithm::sign(PrivateKey*, const ByteString& d, ByteString& signature, const AsymMech::Type m, const void*, const size_t) { rec(d, (int)m, 0); return produce(signature); }
 bool AsymmetricAlgorithm::signUpdate(const ByteString& d) { rec(d, -2, 0); return IN(prim_ok) != 0; }
-bool AsymmetricAlgorithm::signFinal(ByteString& signature) { return produce(signature); }
+bool AsymmetricAlgorithm::signFinal(ByteString& signature) { OUT(fin_n)++; return produce(signature); }
 bool AsymmetricAlgorithm::verify(PublicKey*, const ByteString& d, const ByteString& signature, const AsymMech::Type m, const void*, const size_t) { rec(d, (int)m, signature.size()); return IN(prim_ok) != 0; }
 bool AsymmetricAlgorithm::verifyUpdate(const ByteString& d) { rec(d, -2, 0); return IN(prim_ok) != 0; }
 bool AsymmetricAlgorithm::verifyFinal(const ByteString& signature) { OUT(prim_siglen) = signature.size(); return IN(prim_ok) != 0; }
 bool AsymmetricAlgorithm::encrypt(PublicKey*, const ByteString& d, ByteString& encryptedData, const AsymMech::Type m) { rec(d, (int)m, 0); return produce(encryptedData); }
 
+// ---- digest operation
+#include "HashAlgorithm.h"
+static long vp_hash_store[16];
+HashAlgorithm* Session::getDigestOp() { return (HashAlgorithm*)(void*)&vp_hash_store[0]; }
+int HashAlgorithm::getHashSize() { return (int)IN(size); }
+bool HashAlgorithm::hashUpdate(const ByteString& d) { rec(d, -3, 0); return IN(prim_ok) != 0; }
+bool HashAlgorithm::hashFinal(ByteString& hashedData) { OUT(fin_n)++; return produce(hashedData); }
 #define SETUP VP_MK_HSM(); unsigned char data[VP_DATA]; memcpy(data, vp_in_data, VP_DATA); unsigned char out[VP_OUTW]; for (int i = 0; i < VP_OUTW; i++) out[i] = 0xAA; \
 	CK_ULONG len = IN(buflen); CK_BYTE_PTR pOut = SES(NULL_OUT) ? (CK_BYTE_PTR)0 : &out[0]; CK_ULONG_PTR pLen = IN(lenNull) ? (CK_ULONG_PTR)0 : &len
 #define FINISH OUT(len_after) = len; OUT(out_w) = IN(w) < VP_OUTW ? out[IN(w)] : 0xAA; return rv
 extern "C" CK_RV vp_sign1(void) { SETUP; CK_RV rv = hsm->C_Sign(SES(HSESSION), &data[0], IN(datalen), pOut, pLen); FINISH; }
 extern "C" CK_RV vp_encrypt1(void) { SETUP; CK_RV rv = hsm->C_Encrypt(SES(HSESSION), &data[0], IN(datalen), pOut, pLen); FINISH; }
+bool AsymmetricAlgorithm::decrypt(PrivateKey*, const ByteString& d, ByteString& data, const AsymMech::Type m) { rec(d, (int)m, 0); return produce(data); }
+extern "C" CK_RV vp_decrypt1(void) { SETUP; CK_RV rv = hsm->C_Decrypt(SES(HSESSION), &data[0], IN(datalen), pOut, pLen); FINISH; }
+extern "C" CK_RV vp_signfinal1(void) { SETUP; CK_RV rv = hsm->C_SignFinal(SES(HSESSION), pOut, pLen); FINISH; }
+extern "C" CK_RV vp_digest1(void) { SETUP; CK_RV rv = hsm->C_Digest(SES(HSESSION), &data[0], IN(datalen), pOut, pLen); FINISH; }
 extern "C" CK_RV vp_verify1(void)
 {
 	SETUP; unsigned char sig[VP_OUTW]; for (int i = 0; i < VP_OUTW; i++) sig[i] = vp_in_sig[i % VP_SIG];
